@@ -38,6 +38,7 @@ var c40AfterStorm []func(c *kit.Ctx, nd *node.Node) // single threaded, after ev
 var c40Boot *node.Boot
 var c40Start func(role string, body func())
 var c40Op func(role, kind string)
+var c40WriterStep func(begin bool, reorg bool) // called by the producer role around every block / branch switch
 
 func init() {
 	kit.Register(&kit.Spec{
@@ -64,7 +65,7 @@ func init() {
 			}
 			return 600
 		},
-		Require: []string{"blocks_processed", "pool_admitted", "rpc_queries", "direct_reads", "reorgs", "storm_overlap_ops"},
+		Require: []string{"blocks_processed", "pool_admitted", "rpc_queries", "direct_reads", "reorgs", "storm_overlap_ops", "locked_getter_calls", "locked_getter_calls_in_a_stable_state", "locked_getter_calls_overlapping_a_membership_change", "locked_getter_calls_overlapping_a_membership_change:State.GetProducers", "membership_changing_steps", "pending_to_active_steps"},
 		Assumptions: []string{"the race detector only sees races on executed interleavings: a clean run is 'no race on K storms covering these operations', not race freedom",
 			"RPC handlers are called directly (servers.* functions) with the globals wired as main.go does; servers.Server is nil so peer-listing handlers are excluded"},
 	})
@@ -229,8 +230,12 @@ func runC40(c *kit.Ctx) {
 		failed := 0
 		for i := 0; i < blocksGoal && failed < 6; i++ {
 			c.Begin("producer block %d height %d", i, nd.Height())
+			isReorg := i%9 == 8 && (era == "" || i%27 == 26)
+			if c40WriterStep != nil {
+				c40WriterStep(true, isReorg) // logical clock of the only writer of consensus state (see c40_dpos.go)
+			}
 			guard("producer", func() {
-				if i%9 == 8 && (era == "" || i%27 == 26) {
+				if isReorg {
 					// reorg: build a heavier empty branch from the tip's parent (depth 1) or grandparent (depth 2)
 					tip := nd.TipBlock()
 					depth := 1 + pr.Intn(2)
@@ -313,6 +318,9 @@ func runC40(c *kit.Ctx) {
 				c.Inc("blocks_processed")
 				op("producer", "block")
 			})
+			if c40WriterStep != nil {
+				c40WriterStep(false, isReorg)
+			}
 			runtime.Gosched()
 		}
 	})
@@ -564,12 +572,10 @@ func c40RaceFamily(raw string) string {
 		return "race:" + raw
 	}
 	pkg := func(fn string) string {
-		if i := strings.LastIndex(fn, "."); i > 0 {
-			// "dpos/state.(*State).foo" -> "dpos/state"; closures appear as "dpos/state."
-			if j := strings.Index(fn, ".("); j > 0 {
-				return fn[:j]
-			}
-			return fn[:i]
+		// "dpos/state.(*State).foo.func1" -> "dpos/state": the package path ends at the first dot after the last slash
+		i := strings.LastIndex(fn, "/")
+		if j := strings.Index(fn[i+1:], "."); j >= 0 {
+			return fn[:i+1+j]
 		}
 		return fn
 	}
@@ -579,6 +585,10 @@ func c40RaceFamily(raw string) string {
 	// with history_size=7 to keep this rare): the report is still a definite race, but only one side is known.
 	if (a == "" && state(b)) || (b == "" && state(a)) {
 		return "race:family:consensus-state-access-with-lost-peer-stack"
+	}
+	// payload objects (CRCProposal.Hash) cache their hash lazily like BaseTransaction.Hash does
+	if parts[0] == "core/types/payload.(*CRCProposal).Hash" && parts[1] == parts[0] {
+		return "race:family:lazy-payload-hash-cache"
 	}
 	valid := func(p string) bool { return p == "core/transaction" || p == "core/types/payload" }
 	switch {
@@ -590,7 +600,7 @@ func c40RaceFamily(raw string) string {
 		return "race:family:dpos-state-two-mutexes"
 	case state(a) && state(b):
 		return "race:family:cr-member-fields-written-without-committee-lock"
-	case a == "core/transaction" && b == "core/transaction":
+	case a == "core/transaction" && b == "core/transaction" && strings.HasSuffix(parts[0], ").Hash") && strings.HasSuffix(parts[1], ").Hash"):
 		return "race:family:lazy-tx-hash-cache"
 	}
 	return "race:" + raw
